@@ -411,6 +411,25 @@ fn callee_json<'tcx>(
     }
     v.push(("args", J::Arr(a)));
     v.push(("path_with_args", J::s(&tcx.def_path_str_with_args(did, args))));
+    if let DefKind::Ctor(of, _) = tcx.def_kind(did) {
+        // tuple struct / enum variant constructor used as a function
+        let parent = tcx.parent(did);
+        match of {
+            rustc_hir::def::CtorOf::Variant => {
+                let adt_did = tcx.parent(parent);
+                let adt = tcx.adt_def(adt_did);
+                let vi = adt.variant_index_with_id(parent);
+                v.push(("ctor_adt", J::s(&path(tcx, adt_did))));
+                v.push(("ctor_variant", J::i(vi.index() as i128)));
+                v.push(("ctor_is_enum", J::b(true)));
+            }
+            rustc_hir::def::CtorOf::Struct => {
+                v.push(("ctor_adt", J::s(&path(tcx, parent))));
+                v.push(("ctor_variant", J::i(0)));
+                v.push(("ctor_is_enum", J::b(false)));
+            }
+        }
+    }
     // trait item?
     if let Some(ai) = tcx.opt_associated_item(did) {
         let cont = ai.container_id(tcx);
